@@ -67,7 +67,15 @@ let item o (ou, s) =
   | _, OutT (w, reuse, ob, re) ->
     res_s re ^ "|" ^ obs_s ob ^ "|m" ^ (if reuse then "1" else "0") ^ "|w" ^ si w ^ " " ^ dump s w
   | _ -> "?"
-let digest = Array.length Sys.argv > 1 && Sys.argv.(1) = "--digest"
+let argv = Array.to_list Sys.argv
+let digest = List.mem "--digest" argv
+let cleanm = List.mem "--clean" argv
+(* --variant <fx1> <fx2> : older code variants of Model.v (default 1 1 = the pinned code) *)
+let rec variant = function
+  | "--variant" :: a :: b :: _ -> (a = "1", b = "1")
+  | _ :: t -> variant t
+  | [] -> (true, true)
+let (fx1, fx2) = variant argv
 let () =
   try
     while true do
@@ -76,8 +84,9 @@ let () =
       else begin
         let ops = List.map op_of (List.filter (fun x -> String.trim x <> "") (String.split_on_char ';' line)) in
         if digest then print_endline (str_of_ns (digest0 ops))
+        else if cleanm then print_endline (if clean0 ops then "1" else "0")
         else begin
-          let tr = trace0 ops in
+          let tr = trace fx1 fx2 fal0 cont0 sys0 ops in
           print_endline (String.concat " ; " (List.map2 item ops tr))
         end
       end
